@@ -482,6 +482,13 @@ class CallMixin:
 
     def apply(self, fv: SV, args, kwargs, st: State, node):
         ex = fv.extra
+        if isinstance(fv.t, TOpt):
+            self.partial(st, z3.Not(sym.opt_is_none(fv)), "TypeError", node, label=f"call of None: {ast.unparse(node)}")
+            fv = sym.opt_val(fv)
+        if isinstance(fv.t, TRef):
+            fs = self.reg.funs.get(f"ext:{fv.t.cls}.__call__")
+            if fs is not None:  # a callable value of an opaque class: assumed contract of its __call__
+                return self.call_contract(fs, [fv] + args, kwargs, st, node, params=fs.types.get("__params__"))
         if not isinstance(fv.t, TConst) or not isinstance(ex, tuple):
             raise EngineError(f"call of non-function value: {ast.unparse(node)}")
         kind = ex[0]
@@ -711,6 +718,14 @@ class CallMixin:
             r = self.evs(e.args[0], s)
             st.pc = s.pc
             return [(st, r)]
+        if name == "at_return":
+            fin = st.ghost.get("final_store")
+            if fin is None:
+                raise EngineError("at_return() outside a postcondition")
+            s = st.copy()
+            s.store = dict(fin)
+            s.pc = st.pc
+            return [(st, self.evs(e.args[0], s))]
         if name == "implies":
             a = self.spec_bool(e.args[0], st)
             st.guards.append(a)
